@@ -49,7 +49,7 @@ func (Engine) Describe(prop string) core.Description {
 			"only page[number] and page[size] are generated as page parameters; an empty field list and an absent entry are the same selection",
 			"the fixed-point clause is monitored on sampled URLs; the seam-dependent clause (parameter / list order, map order) is what simulation decides",
 		},
-		Probes: []string{"parse-ok", "parse-error", "reserved-char-in-id", "reserved-char-in-filter-label", "reserved-char-in-page-value", "reserved-char-in-filter-string", "filter-tree", "filter-members-in-another-order", "type-without-fields", "variant-params-permuted", "variant-empty-items", "relationship-url", "collection-url", "include-param", "extra-page-parameter", "schema-built-through-edit-history"},
+		Probes: []string{"parse-ok", "parse-error", "reserved-char-in-id", "reserved-char-in-filter-label", "reserved-char-in-page-value", "reserved-char-in-filter-string", "filter-tree", "filter-members-in-another-order", "type-without-fields", "variant-params-permuted", "variant-empty-items", "relationship-url", "collection-url", "include-param", "extra-page-parameter", "schema-built-through-edit-history", "names-that-need-escaping"},
 	}
 }
 
@@ -540,7 +540,15 @@ func (Engine) Run(prop string, t *core.Tape, st *core.Stats) *core.Violation {
 }
 
 func run(t *core.Tape, st *core.Stats) *core.Violation {
-	spec := world.DrawSchema(t, world.SchemaOptions{MinTypes: 1, MaxTypes: 4, MaxAttrs: 4, MaxRels: 3, Names: world.NamesPlain, AllowStruct: true, ForceStruct: -1, TwoWay: true})
+	// member names that need escaping in a URL (space, &, quotes, non-ASCII ...) in a
+	// quarter of the runs: the library accepts any non-empty name
+	style := world.NamesPlain
+	if t.Bool(1, 4) {
+		style = world.NamesExotic
+		st.Inc("probe:names-that-need-escaping")
+	}
+
+	spec := world.DrawSchema(t, world.SchemaOptions{MinTypes: 1, MaxTypes: 4, MaxAttrs: 4, MaxRels: 3, Names: style, AllowStruct: true, ForceStruct: -1, TwoWay: true})
 
 	var (
 		schema *jsonapi.Schema
